@@ -621,3 +621,83 @@ func init() {
 	register(&Scenario{Name: "inproc-listener-back-in-accept-serves-its-waiter", Prop: "C13", Horizon: time.Hour, Weight: 2, Run: c11InprocTwo})
 	register(&Scenario{Name: "inproc-listener-back-in-accept-serves-its-waiter", Prop: "C12", Horizon: time.Hour, Weight: 1, Run: c11InprocTwo})
 }
+
+// c12InprocWrongProto: an inproc listener is dialled by sockets of a protocol
+// it does not speak (refused with a protocol error), before or at the same
+// moment as a dial of the right protocol: the refusals cost the listener
+// nothing - the right peer attaches at once.
+func c12InprocWrongProto(w *W) {
+	kind := []string{"rep", "pull", "sub", "bus", "respondent", "pair", "star"}[w.Choose(simrt.SShape, 7)]
+	wrongs := []string{"pub", "push", "req", "surveyor", "pair1"}
+	nwrong := 1 + w.Choose(simrt.SShape, 3)
+	concurrent := w.Choose(simrt.SShape, 2) == 0
+	w.SetShape("kind", kind)
+	w.SetShape("tran", "inproc")
+	w.SetShape("wrong_dials", nwrong)
+	w.SetShape("concurrent", concurrent)
+	var all []mangos.Socket
+	defer func() {
+		for _, s := range all {
+			s.Close()
+		}
+	}()
+	l := w.Sock(kind)
+	all = append(all, l)
+	attached := 0
+	l.SetPipeEventHook(func(ev mangos.PipeEvent, p mangos.Pipe) {
+		if ev == mangos.PipeEventAttached {
+			attached++
+		}
+	})
+	addr := w.Addr("inproc")
+	if err := l.Listen(addr); err != nil {
+		w.Failf("HARNESS/listen", "%v", err)
+		return
+	}
+	w.Settle()
+	var wcalls []*Call
+	for i := 0; i < nwrong; i++ {
+		wk := wrongs[w.Choose(simrt.SProg, len(wrongs))]
+		if peerKind[wk] == kind || wk == peerKind[kind] {
+			continue
+		}
+		d := w.Sock(wk)
+		all = append(all, d)
+		w.Fault("proto-refuse")
+		wcalls = append(wcalls, w.Do(fmt.Sprintf("%s.Dial (wrong protocol for %s)", wk, kind), func() (interface{}, error) {
+			return nil, d.DialOptions(addr, map[string]interface{}{mangos.OptionDialAsynch: false})
+		}))
+		if !concurrent {
+			w.Settle()
+		}
+	}
+	good := w.Sock(peerKind[kind])
+	all = append(all, good)
+	gc := w.Do(fmt.Sprintf("%s.Dial (right protocol)", peerKind[kind]), func() (interface{}, error) {
+		return nil, good.DialOptions(addr, map[string]interface{}{mangos.OptionDialAsynch: false})
+	})
+	w.Sleep(time.Second)
+	w.Settle()
+	for _, c := range wcalls {
+		if !c.Returned() {
+			w.WedgeCheck("C12")
+			w.Failf("C12/call-never-returns", "%s has not returned after 1s%s", c.Label, w.BlockedReport())
+			return
+		}
+		if c.Err == nil {
+			w.Failf("C15/wrong-protocol-accepted", "%s to a %s listener over inproc succeeded", c.Label, kind)
+			return
+		}
+	}
+	if !gc.Returned() || gc.Err != nil || attached != 1 {
+		w.WedgeCheck("C12")
+		w.Failf("C12/listener-stopped-accepting", "an inproc %s listener refused %d dial(s) of sockets of other protocols; the dial of a %s socket: returned=%v err=%v, %d pipe(s) attached after 1s%s", kind, len(wcalls), peerKind[kind], gc.Returned(), errName(gc.Err), attached, w.BlockedReport())
+		return
+	}
+	w.Probe("inproc-right-peer-attached-after-wrong-protocol-dials")
+	w.Delivery++
+}
+
+func init() {
+	register(&Scenario{Name: "inproc-wrong-protocol-dials-then-the-right-one", Prop: "C12", Horizon: time.Hour, Weight: 2, Run: c12InprocWrongProto})
+}
